@@ -520,11 +520,6 @@ class Core(composites.Composite):
                 )
             )
 
-        # could speed up output by passing format args as an arg and only process if verb good.
-        runLog.debug("Adding   {0} to {1}".format(a, self))
-        composites.Composite.add(self, a)
-        aName = a.getName()
-
         if spatialLocator is not None:
             # transfer spatialLocator to Core one
             spatialLocator = self.spatialGrid[tuple(spatialLocator.indices)]
@@ -536,10 +531,8 @@ class Core(composites.Composite):
                         spatialLocator, self.spatialGrid.symmetry.domain
                     )
                 )
-            a.moveTo(spatialLocator)
 
-        self.childrenByLocator[spatialLocator] = a
-        # build a lookup table for history tracking.
+        aName = a.getName()
         if aName in self.assembliesByName and self.assembliesByName[aName] != a:
             # try to keep assem numbering correct
             runLog.error(
@@ -549,6 +542,15 @@ class Core(composites.Composite):
             )
             raise RuntimeError("Core already contains an assembly with the same name.")
 
+        # could speed up output by passing format args as an arg and only process if verb good.
+        runLog.debug("Adding   {0} to {1}".format(a, self))
+        composites.Composite.add(self, a)
+
+        if spatialLocator is not None:
+            a.moveTo(spatialLocator)
+
+        self.childrenByLocator[spatialLocator] = a
+        # build a lookup table for history tracking.
         self.assembliesByName[aName] = a
         for b in a:
             self.blocksByName[b.getName()] = b
